@@ -143,6 +143,55 @@ pub fn canon_call(c: &Value) -> Value {
     c
 }
 
+/// Builds a second level from `l` through one of the restore paths. With `lie`, the aggregate
+/// figures carried by the external input are falsified first (they must not be believed).
+pub fn restore_via(l: &PriceLevel, via: &str, lie: bool) -> Result<PriceLevel, String> {
+    use std::str::FromStr;
+    let mut snap = l.snapshot();
+    if lie {
+        snap.visible_quantity = 12345;
+        snap.hidden_quantity = 999;
+        snap.order_count = 77;
+    }
+    let e = |x: PriceLevelError| x.to_string();
+    match via {
+        "snapshot" => PriceLevel::from_snapshot(snap).map_err(e),
+        "from_ref" => Ok(PriceLevel::from(&snap)),
+        "package" => PriceLevel::from_snapshot_package(PriceLevelSnapshotPackage::new(snap).map_err(e)?).map_err(e),
+        "json" => {
+            let js = if lie { PriceLevelSnapshotPackage::new(snap).map_err(e)?.to_json().map_err(e)? } else { l.snapshot_to_json().map_err(e)? };
+            PriceLevel::from_snapshot_json(&js).map_err(e)
+        }
+        "data" => {
+            let mut d = PriceLevelData::from(l);
+            if lie {
+                d.visible_quantity = 12345;
+                d.hidden_quantity = 999;
+                d.order_count = 77;
+            }
+            PriceLevel::try_from(d).map_err(e)
+        }
+        "data_json" => {
+            let mut v: Value = serde_json::to_value(l).map_err(|x| x.to_string())?;
+            if lie {
+                v["visible_quantity"] = json!(12345);
+                v["hidden_quantity"] = json!(999);
+                v["order_count"] = json!(77);
+            }
+            serde_json::from_value::<PriceLevel>(v).map_err(|x| x.to_string())
+        }
+        "text" => {
+            let mut t = l.to_string();
+            if lie {
+                let (v, h, c) = (l.visible_quantity(), l.hidden_quantity(), l.order_count());
+                t = t.replacen(&format!("visible_quantity={v};hidden_quantity={h};order_count={c};"), "visible_quantity=12345;hidden_quantity=999;order_count=77;", 1);
+            }
+            PriceLevel::from_str(&t).map_err(e)
+        }
+        _ => Err("unknown path".into()),
+    }
+}
+
 fn panic_msg(e: &Box<dyn std::any::Any + Send>) -> String {
     if let Some(s) = e.downcast_ref::<&str>() {
         s.to_string()
@@ -333,6 +382,7 @@ fn run_once(sched: &Arc<Sched>, sc: &Value, sc_ix: usize, run_ix: usize, micro: 
     let mk_job = |w: usize, prog: Vec<Value>| -> Job {
         let (level, gen, out, tx, sched2, incall) = (ex.level.clone(), ex.gen.clone(), out.clone(), tx.clone(), sched.clone(), incall.clone());
         Box::new(move || {
+            let mut second: Option<(Arc<PriceLevel>, Arc<UuidGenerator>)> = None;
             for c in prog {
                 if c["op"] == "add" && c["fresh"].as_bool().unwrap_or(true) {
                     // precondition of the properties: ids are unique among the resting orders
@@ -342,6 +392,34 @@ fn run_once(sched: &Arc<Sched>, sc: &Value, sc_ix: usize, run_ix: usize, micro: 
                     }
                 }
                 sched2.reset_steps(w);
+                if c["op"] == "restore" || c["op"] == "fork" {
+                    let via = c["via"].as_str().unwrap_or("snapshot").to_string();
+                    let lie = c["lie"].as_bool().unwrap_or(false);
+                    let r = unregistered(|| std::panic::catch_unwind(std::panic::AssertUnwindSafe(|| restore_via(&level, &via, lie))));
+                    let kind = if c["op"] == "fork" { "fork" } else { "restore" };
+                    let mut line = json!({"k": kind, "t": w + 1, "via": via, "lie": lie, "st": unregistered(|| state_json(&level, Some(&gen), true))});
+                    match r {
+                        Ok(Ok(l2)) => {
+                            let g2 = Arc::new(UuidGenerator::new(gen_namespace()));
+                            line["ok"] = json!(true);
+                            line["price2"] = json!(sint(l2.price()));
+                            line["st2"] = unregistered(|| state_json(&l2, Some(&g2), true));
+                            if kind == "fork" {
+                                second = Some((Arc::new(l2), g2));
+                            }
+                        }
+                        Ok(Err(e)) => {
+                            line["ok"] = json!(false);
+                            line["err"] = json!(e);
+                        }
+                        Err(_) => {
+                            line["ok"] = json!(false);
+                            line["err"] = json!("panic");
+                        }
+                    }
+                    out.push(line);
+                    continue;
+                }
                 *incall.lock().unwrap() += 1;
                 if micro {
                     out.push(json!({"k": "call", "t": w + 1, "c": canon_call(&c)}));
@@ -352,17 +430,20 @@ fn run_once(sched: &Arc<Sched>, sc: &Value, sc_ix: usize, run_ix: usize, micro: 
                     *g -= 1;
                     *g == 0
                 };
-                let (rv, stop) = match r {
-                    Ok(v) => (v, false),
-                    Err(e) => {
-                        let m = panic_msg(&e);
-                        if m == BUDGET_PANIC {
-                            (json!({"t": "hang"}), true)
-                        } else {
-                            (json!({"t": "panic", "msg": m}), true)
+                let conv = |r: std::thread::Result<Value>| -> (Value, bool) {
+                    match r {
+                        Ok(v) => (v, false),
+                        Err(e) => {
+                            let m = panic_msg(&e);
+                            if m == BUDGET_PANIC {
+                                (json!({"t": "hang"}), true)
+                            } else {
+                                (json!({"t": "panic", "msg": m}), true)
+                            }
                         }
                     }
                 };
+                let (rv, mut stop) = conv(r);
                 if micro {
                     let mut line = json!({"k": "ret", "t": w + 1, "r": rv});
                     if quiet {
@@ -370,7 +451,16 @@ fn run_once(sched: &Arc<Sched>, sc: &Value, sc_ix: usize, run_ix: usize, micro: 
                     }
                     out.push(line);
                 } else {
-                    out.push(json!({"k": "cr", "t": w + 1, "c": canon_call(&c), "r": rv, "st": unregistered(|| state_json(&level, Some(&gen), true))}));
+                    let mut line = json!({"k": "cr", "t": w + 1, "c": canon_call(&c), "r": rv, "st": unregistered(|| state_json(&level, Some(&gen), true))});
+                    if let Some((l2, g2)) = &second {
+                        // the same call on the restored level (lock-step, C11)
+                        sched2.reset_steps(w);
+                        let (r2, stop2) = conv(std::panic::catch_unwind(std::panic::AssertUnwindSafe(|| do_call(l2, g2, &tx, &c))));
+                        line["r2"] = r2;
+                        line["st2"] = unregistered(|| state_json(l2, Some(g2), true));
+                        stop = stop || stop2;
+                    }
+                    out.push(line);
                 }
                 if stop {
                     break;
